@@ -18,11 +18,14 @@ package ctxio
 //@ axiom [zero] isZeroT(zero(time.Time)) && !isPast(zero(time.Time))
 
 // the reader buffers the bytes of c.conn: everything taken from the socket is either consumed or still buffered
-//@ pred cwf(c) = c != nil && c.conn != nil && c.reader != nil && rconn(c.reader) == c.conn && bufLo[c.reader] <= bufHi[c.reader] && bufHi[c.reader] == sockOff[c.conn]
+//@ pred cstruct(c) = c != nil && c.conn != nil && c.reader != nil && rconn(c.reader) == c.conn
+//@ pred cpos(c) = bufLo[c.reader] <= bufHi[c.reader] && bufHi[c.reader] == sockOff[c.conn]
+//@ pred cwf(c) = cstruct(c) && cpos(c)
 
 //@ func NewConn {C02 C10 C18 | safety: C10}
 //@   requires [nn] c != nil
-//@   ensures [fresh C02 C10 C18] result != nil && fresh(result) && result.conn == c && result.reader != nil && rconn(result.reader) == c
+//@   modifies bufLo, bufHi
+//@   ensures [fresh C02 C10 C18] result != nil && fresh(result) && cstruct(result) && result.conn == c && cpos(result)
 
 //@ func (*Conn).NetConn {C18}
 //@   requires [nn] c != nil
@@ -70,18 +73,18 @@ package ctxio
 // ---- Read
 
 //@ func (*Conn).Read$1 {C16 C17 C18 | safety: C10}
-//@   requires [nn] cwf(*c) && *ch != nil
+//@   requires [nn] cstruct(*c) && *ch != nil
 //@   modifies sockOff, bufLo, bufHi, elems(*buf), gRdCalls, gSends, gSentN, gSentErr
 //@   ghostset at send#1 : gSends = gSends + 1
 //@   ghostset at send#1 : gSentN = sent.n
 //@   ghostset at send#1 : gSentErr = sent.err
 //@   ensures [once C16] gSends == old(gSends) + 1 && gRdCalls == old(gRdCalls) + 1
-//@   ensures [wf C18] cwf(*c)
+//@   ensures [wf C18] old(cpos(*c)) ==> cpos(*c)
 //@   ensures [front C18] 0 <= gSentN && gSentN <= len(*buf) && (forall i int :: 0 <= i && i < gSentN ==> (*buf)[i] == stream((*c).conn, old(bufLo)[(*c).reader] + i)) && bufLo[(*c).reader] == old(bufLo)[(*c).reader] + gSentN
 //@   assert [chan C16] at send#1 : chan == *ch
 
 //@ func (*Conn).Read {C16 C17 C18 | safety: C10}
-//@   requires [nn] cwf(c) && ctx != nil
+//@   requires [nn] cstruct(c) && ctx != nil
 //@   modifies dlRpast, dlRzero, dlRctx, helper, gDlFail, gCancelled, gCtxErr, sockOff, bufLo, bufHi, elems(buf), gRdCalls, gSends, gSentN, gSentErr
 //@   ghostset at call(SetReadDeadline)#1 : gDlFail = (res0 != nil)
 //@   ghostset at call(SetReadDeadline)#1 : gCancelled = false
@@ -99,27 +102,27 @@ package ctxio
 //@   assert [unblock C17] at recv#1 : dlRpast[c.conn] && gCancelled
 //@   ensures [joined C16 C17] !gDlFail ==> helper != 1
 //@   ensures [reset C17] gCancelled && !gDlFail ==> dlRzero[c.conn] && !dlRpast[c.conn] && result1 == gCtxErr && result0 == 0
-//@   ensures [wf C18] !gDlFail ==> cwf(c)
+//@   ensures [wf C18] old(cpos(c)) && !gDlFail ==> cpos(c)
 //@   ensures [front C18] !gCancelled && !gDlFail ==> 0 <= result0 && result0 <= len(buf) && (forall i int :: 0 <= i && i < result0 ==> buf[i] == stream(c.conn, old(bufLo)[c.reader] + i)) && bufLo[c.reader] == old(bufLo)[c.reader] + result0
 //@   ensures [fail C17] gDlFail ==> result0 == 0 && result1 != nil
 
 // ---- ReadBytes
 
 //@ func (*Conn).ReadBytes$1 {C02 C16 C17 C18 | safety: C10}
-//@   requires [nn] cwf(*c) && *ch != nil
+//@   requires [nn] cstruct(*c) && *ch != nil
 //@   modifies sockOff, bufLo, bufHi, gRdCalls, gSends, gSentVal, gSentErr
 //@   ghostset at send#1 : gSends = gSends + 1
 //@   ghostset at send#1 : gSentVal = sent.val
 //@   ghostset at send#1 : gSentErr = sent.err
 //@   ensures [once C16] gSends == old(gSends) + 1 && gRdCalls == old(gRdCalls) + 1
-//@   ensures [wf C18] cwf(*c)
+//@   ensures [wf C18] old(cpos(*c)) ==> cpos(*c)
 //@   ensures [front C02 C18] (forall i int :: 0 <= i && i < len(gSentVal) ==> gSentVal[i] == stream((*c).conn, old(bufLo)[(*c).reader] + i)) && bufLo[(*c).reader] == old(bufLo)[(*c).reader] + len(gSentVal)
 //@   ensures [delim C02 C10 C11] gSentErr == nil ==> len(gSentVal) >= 1 && gSentVal[len(gSentVal) - 1] == *delim && (forall i int :: 0 <= i && i < len(gSentVal) - 1 ==> gSentVal[i] != *delim)
 //@   assert [reader C02 C18] at call(ReadBytes)#1 : arg0 == (*c).reader && arg1 == *delim
 //@   assert [chan C16] at send#1 : chan == *ch
 
 //@ func (*Conn).ReadBytes {C02 C10 C11 C16 C17 C18 | safety: C10}
-//@   requires [nn] cwf(c) && ctx != nil
+//@   requires [nn] cstruct(c) && ctx != nil
 //@   modifies dlRpast, dlRzero, dlRctx, helper, gDlFail, gCancelled, gCtxErr, sockOff, bufLo, bufHi, gRdCalls, gSends, gSentVal, gSentErr
 //@   ghostset at call(SetReadDeadline)#1 : gDlFail = (res0 != nil)
 //@   ghostset at call(SetReadDeadline)#1 : gCancelled = false
@@ -137,7 +140,7 @@ package ctxio
 //@   assert [unblock C17] at recv#1 : dlRpast[c.conn] && gCancelled
 //@   ensures [joined C16 C17] !gDlFail ==> helper != 1
 //@   ensures [reset C17] gCancelled && !gDlFail ==> dlRzero[c.conn] && !dlRpast[c.conn] && result1 == gCtxErr && result0 == nil
-//@   ensures [wf C18] !gDlFail ==> cwf(c)
+//@   ensures [wf C18] old(cpos(c)) && !gDlFail ==> cpos(c)
 //@   ensures [delim C02 C10 C11] result1 == nil ==> len(result0) >= 1 && result0[len(result0) - 1] == delim && (forall i int :: 0 <= i && i < len(result0) - 1 ==> result0[i] != delim)
 //@   ensures [front C02 C18] !gCancelled && !gDlFail ==> (forall i int :: 0 <= i && i < len(result0) ==> result0[i] == stream(c.conn, old(bufLo)[c.reader] + i)) && bufLo[c.reader] == old(bufLo)[c.reader] + len(result0)
 //@   ensures [fail C17] gDlFail ==> result0 == nil && result1 != nil
